@@ -489,6 +489,22 @@ def search(ctx, disagreements):
     for p in rects:
         p["impl"] = rect_between(p)
         ctx.count("rects->" + ("none" if p["impl"] == "ok None" else "found" if p["impl"].startswith("ok") else p["impl"]))
+    # the answer for a pair depends on the tolerance asked for now, not on what was asked before: near-miss pairs are put to
+    # the implementation at a coarse tolerance first and then at the fine one, and the second answer is judged
+    affine_between_, SVGPath_ = impl()
+    again = []
+    fresh = []
+    while len(fresh) < 60:  # fresh pairs: not put to the implementation before in this process
+        q = gen_pair(ctx.rng)
+        if q["kind"].startswith("nearmiss"):
+            fresh.append(q)
+    for p in fresh:
+        common.outcome_of(lambda: affine_between_(SVGPath_(d=p["d1"]), SVGPath_(d=p["d2"]), max(1.0, 50 * p["tol"])))
+        q = dict(p)
+        q["impl"] = impl_between(p["d1"], p["d2"], p["tol"])
+        q["kind"] = "again:" + p["kind"]
+        again.append(q)
+    pairs = pairs + again
     polys = [poly_pair(ctx.rng) for _ in range(400 if ctx.thorough() or ctx.escalate else 120)]
     for p in polys:
         p["impl"] = poly_between(p)
